@@ -371,8 +371,8 @@ func cmdCheck(args []string) int {
 			r.incon = append(r.incon, "vacuous: no assertion was reached on any feasible path")
 		}
 		results = append(results, r)
-		fmt.Printf("harness %-28s paths=%d asserting=%d obligations=%d/%d forks=%d findings=%d known=%d incon=%d solver=%.1fs wall=%.1fs\n",
-			h.Name, rep.Paths, rep.PathsAsserting, rep.ObligationsUnsat, rep.Obligations, rep.Forks, len(r.viol), len(r.kf), len(r.incon), rep.Solver.Time.Seconds(), rep.Wall.Seconds())
+		fmt.Printf("harness %-28s paths=%d asserting=%d obligations=%d/%d forks=%d findings=%d known=%d incon=%d queries=%d (unk %d, quick-unk %d, max %.1fs) solver=%.1fs wall=%.1fs\n",
+			h.Name, rep.Paths, rep.PathsAsserting, rep.ObligationsUnsat, rep.Obligations, rep.Forks, len(r.viol), len(r.kf), len(r.incon), rep.Solver.Queries, rep.Solver.Unknown, rep.Solver.QuickUnknown, rep.Solver.MaxQuery.Seconds(), rep.Solver.Time.Seconds(), rep.Wall.Seconds())
 		for _, l := range r.kf {
 			fmt.Println(l)
 		}
@@ -453,7 +453,7 @@ func cmdCheck(args []string) int {
 				"functions_intrinsic": r.rep.FuncsIntrinsic, "functions_opaque": r.rep.FuncsOpaque,
 				"solver_queries": r.rep.Solver.Queries, "solver_sat": r.rep.Solver.Sat, "solver_unsat": r.rep.Solver.Unsat,
 				"solver_unknown": r.rep.Solver.Unknown, "solver_time_s": r.rep.Solver.Time.Seconds(),
-				"solver_max_query_s": r.rep.Solver.MaxQuery.Seconds(), "solver_fallbacks": r.rep.Solver.Fallbacks,
+				"solver_max_query_s": r.rep.Solver.MaxQuery.Seconds(), "solver_fallbacks": r.rep.Solver.Fallbacks, "branches_kept_on_solver_unknown": r.rep.BranchesKeptOnUnknown,
 				"solver_errors": r.rep.Solver.Errors, "solver_cross_ok": r.rep.Solver.CrossOK, "solver_cross_diffs": r.rep.Solver.CrossDiffs,
 				"replaced": r.plan.Replace, "known_findings": r.kf, "inconclusive": r.incon, "violations": r.viol,
 				"wall_s": r.rep.Wall.Seconds(),
